@@ -244,7 +244,13 @@ def main(argv=None):
                 inconclusive.append((res["name"], res.get("detail", "")))
             if res.get("kind") != "direct" and res.get("status") in ("confirmed", "inconclusive") \
                     and not str(res.get("witness", "")).startswith("refuted"):
-                harness_errors.append((res["name"], "vacuous: witness twin %s" % res.get("witness")))
+                if task["ob"].get("allow_vacuous"):
+                    # declared possibly-empty partition: not counted as discharged, not an error
+                    if res.get("status") == "confirmed":
+                        res["status"] = "inconclusive"
+                        inconclusive.append((res["name"], "vacuous partition: no input reaches the final assertion (witness twin %s)" % res.get("witness")))
+                else:
+                    harness_errors.append((res["name"], "vacuous: witness twin %s" % res.get("witness")))
             results.append(res)
         pending = again
 
